@@ -30,3 +30,40 @@ PROP = {
         "technique": "Lean 4 proof (LTS enabledness and invariants over all interleavings) + regenerated source facts + gated-stream correspondence on the real Subscribe server",
     },
 }
+
+# C08 over the sequential, code-shaped Subscribe model (Props/C08Seq.lean): docs/STREAM_SEQ_NOTES.md,
+# "Backlog and duplicates (C08Seq)".  The C04Seq/C04Gate chain it rests on is listed for the audit imports.
+from c04seq_part import MODULES as _SEQ_MODULES
+PROP["modules"] += [m for m in _SEQ_MODULES if m != "Gnmi.Props.C04Atomic"] + [
+    "Gnmi.Lemmas.SubscribeBacklog", "Gnmi.Props.C08Seq"]
+PROP["theorems"] += ["Gnmi.C08Seq." + t for t in [
+    # (1) backlog bounded by the distinct pending leaves; (2) duplicate counts; (3) resuming; (4) others unaffected
+    "backlog_bound_seq", "backlog_written_seq",
+    "pending_dups_feed", "pending_dups_seq",
+    "resume_newest_seq", "resume_exactly_one",
+    "gstep_pointwise", "feed_pointwise", "grun_cache", "grun_at", "gate_ops_local", "stall_noninterference",
+    "others_unaffected_seq",
+    # non-vacuity: a stalled subscriber, k = 3 writes of one leaf and one of another, gateOpen
+    "histS_ok", "histS_noStar", "histSeg_ok", "histSeg_noStar", "histOpen_ok", "histOpen_noStar",
+    "histS_views", "histSeg_views", "histOpen_views", "histS_s1", "histSeg_dups", "histSeg_backlog",
+    "histOpen_resume", "histOpen_others", "seg2_ops",
+    # what the naive reading of "exactly one update response per pending leaf" misses: the response in flight, and a
+    # leaf deleted and re-created while pending (detached handle, delete item, new handle)
+    "inflight_same_leaf_witness", "histD_ok", "histD_noStar", "detached_same_leaf_witness",
+    "subRun_seg_blocked",
+]] + ["Gnmi.SubBacklog." + t for t in [
+    "hkeys_nodup", "mem_cacheLeaves", "coverSafe_of_pw", "coverSafe_qstep", "coverSafe_refresh",
+    "entriesFor_qstep", "qfold_entries", "bump_fold_one", "bump_fold_nil", "refreshQueue_skel", "dupsFor_refresh",
+    "feedSub_blocked", "pump_queue_suffix", "gateF_open_out", "subscribe_append", "hkeys_feedSub",
+]]
+PROP["manifest"]["level_text"] += (
+    " In addition, over the sequential code-shaped model that the su correspondence drives (Model/Subscribe.lean), for every history of "
+    "subscriptions, cache API calls and gateShut/gateStep/gateOpen operations (OkRun side conditions of C03, no target literally named '*'): "
+    "backlog_bound_seq / backlog_written_seq (no two queued handle entries for one leaf; every handle entry shows the cache's current "
+    "notification of a leaf a registration is compatible with; handle entries <= such leaves, and <= distinct leaves written since the queue "
+    "was last empty), pending_dups_feed / pending_dups_seq (the entry's duplicate count = offered updates of the leaf since it was created, "
+    "minus one), resume_newest_seq / resume_exactly_one (at gateOpen: the held response, then exactly one response per queue entry in order; a "
+    "handle's response carries the cache's current notification and the entry's count; no other update response for that leaf unless a "
+    "detached one precedes a delete), gstep_pointwise / stall_noninterference (every operation acts on each subscriber as a function of the "
+    "cache and that subscriber alone; erasing all flow-control operations of one subscriber from a history leaves the cache and every other "
+    "subscriber exactly the same).")
